@@ -38,7 +38,11 @@ def direct(c):
                 out.append(f)
                 break
         else:
-            if not (res[0] == 'err' and res[1][0] == 'EIndex'):
+            # IndexError - or the exception of a USER function (they carry a tag) that the lookup ran into while collecting the
+            # candidate elements (batch with drop_last evaluates the elements of the incomplete, dropped batch before it
+            # knows that the batch does not exist): never an example, never another library error.  The theorem has the same
+            # premise (tbl d = Some t: every source element evaluates without raising).
+            if not (res[0] == 'err' and (res[1][0] == 'EIndex' or res[1][1] != 0)):
                 f = dict(summary=f'ds[{i}] outside [-{n},{n}) gave {res!r} instead of IndexError',
                          got_from_impl=repr(res), expected_by_spec='IndexError', query=list(q))
                 if res[0] == 'err' and res[1][0] in ('EAssert', 'ENotImpl') and 'items' in set(c.prog.ops()):
